@@ -161,5 +161,6 @@ func TestVerifC10(t *testing.T) {
 		case <-time.After(20 * time.Second):
 			fmt.Fprintln(w, "HANG")
 		}
+		w.Flush() // per case, so that after a crash the output file tells which case it was
 	}
 }
